@@ -46,6 +46,7 @@ fn gens(tier: Tier) -> Vec<Gen> {
         },
         Gen::new("huff_padding_mutations", tier.pick(2, 300, 20_000)),
         Gen::new("str_plain_and_truncated", tier.pick(2, 100, 5_000)),
+        Gen::exhaustive("str_huge_announced_length", 7),
         Gen::exhaustive("int_boundaries", 8),
         Gen::exhaustive("int_continuation_patterns", 8),
         Gen::new("int_random", tier.pick(2, 200, 20_000)),
@@ -434,6 +435,30 @@ fn run_case(gen: &str, index: u64, seed: u64, _tier: Tier, rep: &mut Report) {
             check_huff_payload(&payload, 8, rep);
             rep.count("huff_eos_variants");
             rep.sig(hash64(&("he", &payload)));
+        }
+        "str_huge_announced_length" => {
+            // a literal that announces far more octets than follow (up to the top of the integer
+            // range, plain and Huffman-flagged): rejected as truncated - no panic, no allocation of
+            // the announced size (an allocation failure aborts the process: ./check reports that)
+            let size = 2 + index as u8;
+            for h in [false, true] {
+                for len in [1u64 << 16, 1 << 31, (1 << 32) + 5, 1 << 40, 1 << 48, 1 << 56, 1 << 60, 1 << 61, (1 << 62) - 1, 1 << 62] {
+                    for tail in [&b""[..], b"\x1c", b"\x1c\x64\xff"] {
+                        let mut wire = Vec::new();
+                        rq::int_encode(size - 1, if h { 1 } else { 0 }, len, &mut wire);
+                        wire.extend_from_slice(tail);
+                        let mut rd = &wire[..];
+                        rep.evaluations += 1;
+                        rep.count("str_huge_length_checked");
+                        match crate::panics::catch(|| hs::decode(size, &mut rd)) {
+                            Ok(Err(_)) => {}
+                            Ok(Ok(v)) => viol(rep, "string-accepts-truncated", format!("wire {} (announces {} octets) decodes to {} B", hex_short(&wire, 24), len, v.len()), json!({"wire": hex_short(&wire, 64), "prefix": size})),
+                            Err(p) => viol(rep, "string-decode-panics", format!("{} at {}", p.msg, p.loc), json!({"wire": hex_short(&wire, 64), "prefix": size})),
+                        }
+                        rep.distinct_direct += 1;
+                    }
+                }
+            }
         }
         "str_plain_and_truncated" => {
             for _ in 0..10 {
